@@ -61,16 +61,38 @@ def correspondence(ctx):
                 if why:
                     ctx.disagree(stream, "pair", impl, "-", True,
                                  {"scheme": name, "a": sa, "b": sb, "clause": why}, spec="the six operators agree")
-        # single-comparator constraints
-        for (sa, a) in pool[:12]:
-            for (sb, b) in pool[:12]:
+        # single-comparator constraints, through every public spelling of the membership test.  The sub-pool also holds
+        # "twins" of its members: another spelling of the same version and, for alpm, the same version with / without
+        # a pkgrel (equal to the bare version, unequal to each other), so that anything remembered about one of them
+        # is there when the other arrives
+        sub = list(pool[:12])
+        for (sa, a) in pool[:6]:
+            cands = []
+            try:
+                cands.append(S.RESPELL[name](sa, rng))
+            except Exception:  # noqa: BLE001
+                pass
+            if name == "alpm":
+                cands += [sa.rsplit("-", 1)[0]] if A.alpm_has_rel(sa) else [sa + "-1", sa + "-2"]
+            for t in cands:
+                if any(t == x for x, _ in sub) or any(ord(ch) > 127 for ch in t):
+                    continue
+                try:
+                    sub.append((t, S.vclass(name)(t)))
+                except Exception:  # noqa: BLE001
+                    pass
+        entry = [("in", lambda v, k: v in k), ("contains", lambda v, k: k.contains(v)), ("satisfies", lambda v, k: v.satisfies(k))]
+        for (sa, a) in sub:
+            for (sb, b) in sub:
                 for c, f in OPF.items():
-                    try:
-                        got = a in VersionConstraint(comparator=TXT[c], version=b)
-                        want = bool(f(a, b))
-                    except Exception as e:  # noqa: BLE001
-                        got, want = "raise:" + type(e).__name__, "answer"
-                    ctx.count(stream + ":constraint", key=(sa, sb, c), nontrivial=True)
-                    if got != want:
-                        ctx.disagree(stream + ":constraint", "%s in %s%s" % (sa, TXT[c], sb), str(got), str(want), True,
-                                     {"scheme": name, "version": sa, "constraint": TXT[c] + sb}, spec=str(want))
+                    for ename, ef in (entry if (len(sa) + len(sb)) % 3 == 0 else entry[:1]):
+                        try:
+                            got = ef(a, VersionConstraint(comparator=TXT[c], version=b))
+                            want = bool(f(a, b))
+                        except Exception as e:  # noqa: BLE001
+                            got, want = "raise:" + type(e).__name__, "answer"
+                        ctx.count(stream + ":constraint", key=(sa, sb, c, ename), nontrivial=True)
+                        if got != want:
+                            ctx.disagree(stream + ":constraint", "%s %s %s%s" % (sa, ename, TXT[c], sb), str(got), str(want), True,
+                                         {"scheme": name, "version": sa, "constraint": TXT[c] + sb, "entry_point": ename},
+                                         spec=str(want))
